@@ -254,3 +254,845 @@ Lemma amp_fraction_nan va i : i < length va -> isnan (fnth va i) = true ->
 Proof.
   intros Hi Hn. rewrite amp_fraction_nth by exact Hi. rewrite Hn. reflexivity.
 Qed.
+
+(* ------------------------------------------------------------------ *)
+(* Facts valid for ALL binary64 values (NaN, infinities, signed zeros),  *)
+(* proved on the SpecFloat view of PrimFloat                             *)
+
+Ltac fold_pos mx my :=
+  change (Pos.compare_cont Eq my mx) with (Pos.compare my mx);
+  change (Pos.compare_cont Eq mx my) with (Pos.compare mx my).
+
+Lemma SFcompare_swap x y :
+  SFcompare y x = match SFcompare x y with Some c => Some (CompOpp c) | None => None end.
+Proof.
+  destruct x as [sx|sx| |sx mx ex]; destruct y as [sy|sy| |sy my ey]; cbn [SFcompare];
+    try reflexivity; try (destruct sx; reflexivity); try (destruct sy; reflexivity);
+    try (destruct sx, sy; reflexivity).
+  destruct sx, sy; try reflexivity.
+  - rewrite (Z.compare_antisym ex ey). destruct (ex ?= ey)%Z; cbn [CompOpp]; try reflexivity.
+    fold_pos mx my. rewrite (Pos.compare_antisym mx my), ?CompOpp_involutive. reflexivity.
+  - rewrite (Z.compare_antisym ex ey). destruct (ex ?= ey)%Z; cbn [CompOpp]; try reflexivity.
+    fold_pos mx my. rewrite (Pos.compare_antisym mx my), ?CompOpp_involutive. reflexivity.
+Qed.
+
+Lemma SFcompare_opp x y : SFcompare (SFopp x) (SFopp y) = SFcompare y x.
+Proof.
+  destruct x as [sx|sx| |sx mx ex]; destruct y as [sy|sy| |sy my ey]; cbn [SFcompare SFopp];
+    try reflexivity; try (destruct sx; reflexivity); try (destruct sy; reflexivity);
+    try (destruct sx, sy; reflexivity).
+  destruct sx, sy; cbn [negb]; try reflexivity.
+  - rewrite (Z.compare_antisym ex ey). destruct (ex ?= ey)%Z; cbn [CompOpp]; try reflexivity.
+    fold_pos mx my. rewrite (Pos.compare_antisym mx my), ?CompOpp_involutive. reflexivity.
+  - rewrite (Z.compare_antisym ex ey). destruct (ex ?= ey)%Z; cbn [CompOpp]; try reflexivity.
+    fold_pos mx my. rewrite (Pos.compare_antisym mx my), ?CompOpp_involutive. reflexivity.
+Qed.
+
+Lemma opp_ltb (x y : PrimFloat.float) : (- x <? - y)%float = (y <? x)%float.
+Proof.
+  rewrite !ltb_spec, !opp_spec. unfold SFltb. rewrite SFcompare_opp. reflexivity.
+Qed.
+
+Lemma opp_leb (x y : PrimFloat.float) : (- x <=? - y)%float = (y <=? x)%float.
+Proof.
+  rewrite !leb_spec, !opp_spec. unfold SFleb. rewrite SFcompare_opp. reflexivity.
+Qed.
+
+(* (x <= y) excludes (y < x), for all floats *)
+Lemma leb_not_ltb (x y : PrimFloat.float) : (x <=? y)%float = true -> (y <? x)%float = false.
+Proof.
+  rewrite leb_spec, ltb_spec. unfold SFleb, SFltb. rewrite (SFcompare_swap (Prim2SF x) (Prim2SF y)).
+  destruct (SFcompare (Prim2SF x) (Prim2SF y)) as [[| |]|]; cbn [CompOpp]; intros H; try reflexivity; discriminate H.
+Qed.
+
+Lemma ltb_asym (x y : PrimFloat.float) : (x <? y)%float = true -> (y <? x)%float = false.
+Proof.
+  rewrite !ltb_spec. unfold SFltb. rewrite (SFcompare_swap (Prim2SF x) (Prim2SF y)).
+  destruct (SFcompare (Prim2SF x) (Prim2SF y)) as [[| |]|]; cbn [CompOpp]; intros H; try reflexivity; discriminate H.
+Qed.
+
+(* there is exactly one NaN *)
+Lemma isnan_Prim2SF x : isnan x = true <-> Prim2SF x = S754_nan.
+Proof.
+  unfold isnan. rewrite eqb_spec. unfold SFeqb. split.
+  - destruct (Prim2SF x) as [s|s| |s m e]; cbn [SFcompare]; try reflexivity.
+    + discriminate.
+    + destruct s; discriminate.
+    + destruct s; rewrite Z.compare_refl, Pos.compare_refl; discriminate.
+  - intros ->. reflexivity.
+Qed.
+
+Lemma nan_unique x y : isnan x = true -> isnan y = true -> x = y.
+Proof.
+  intros Hx Hy. apply Prim2SF_inj.
+  apply isnan_Prim2SF in Hx. apply isnan_Prim2SF in Hy. congruence.
+Qed.
+
+Lemma isnan_eq_fnan x : isnan x = true -> x = fnan.
+Proof. intros H. apply nan_unique; [exact H|reflexivity]. Qed.
+
+(* two non-NaN values that are neither < nor > are identical or both zeros *)
+Lemma SFcompare_Eq x y : SFcompare x y = Some Eq ->
+  x = y \/ (exists s s', x = S754_zero s /\ y = S754_zero s').
+Proof.
+  destruct x as [sx|sx| |sx mx ex]; destruct y as [sy|sy| |sy my ey]; cbn [SFcompare];
+    intros H; try discriminate H;
+    try (destruct sx; discriminate H); try (destruct sy; discriminate H).
+  - right. eauto.
+  - left. destruct sx, sy; try discriminate H; reflexivity.
+  - left. destruct sx, sy; try discriminate H.
+    + destruct (Z.compare_spec ex ey) as [E|E|E]; try discriminate H.
+      change (Pos.compare_cont Eq mx my) with (Pos.compare mx my) in H.
+      destruct (Pos.compare_spec mx my) as [E'|E'|E']; try discriminate H.
+      subst. reflexivity.
+    + destruct (Z.compare_spec ex ey) as [E|E|E]; try discriminate H.
+      change (Pos.compare_cont Eq mx my) with (Pos.compare mx my) in H.
+      destruct (Pos.compare_spec mx my) as [E'|E'|E']; try discriminate H.
+      subst. reflexivity.
+Qed.
+
+Lemma self_div_eq (a b : PrimFloat.float) :
+  isnan a = false -> isnan b = false -> (a <? b)%float = false -> (b <? a)%float = false ->
+  (a / a = b / b)%float.
+Proof.
+  intros Na Nb Hab Hba.
+  assert (Hc : SFcompare (Prim2SF a) (Prim2SF b) = Some Eq).
+  { revert Na Nb Hab Hba. unfold isnan. rewrite !eqb_spec, !ltb_spec. unfold SFeqb, SFltb.
+    rewrite (SFcompare_swap (Prim2SF a) (Prim2SF b)).
+    destruct (SFcompare (Prim2SF a) (Prim2SF b)) as [[| |]|] eqn:E; cbn [CompOpp];
+      intros Na Nb Hab Hba; try reflexivity; try discriminate.
+    exfalso. revert E Na Nb.
+    destruct (Prim2SF a) as [sx|sx| |sx mx ex]; destruct (Prim2SF b) as [sy|sy| |sy my ey];
+      cbn [SFcompare negb]; intros; discriminate. }
+  destruct (SFcompare_Eq _ _ Hc) as [E|(s & s' & Ea & Eb)].
+  - apply Prim2SF_inj in E. subst b. reflexivity.
+  - apply Prim2SF_inj. rewrite !div_spec, Ea, Eb. destruct s, s'; reflexivity.
+Qed.
+
+(* B2: the min/max ratio is symmetric for ALL floats *)
+Lemma ratio_minmax_sym (a b : PrimFloat.float) : ratio_minmax a b = ratio_minmax b a.
+Proof.
+  unfold ratio_minmax, fmin2, fmax2.
+  destruct (isnan a) eqn:Na; destruct (isnan b) eqn:Nb.
+  - rewrite (nan_unique a b Na Nb). reflexivity.
+  - reflexivity.
+  - reflexivity.
+  - destruct (a <? b)%float eqn:Hab.
+    + rewrite (ltb_asym a b Hab). reflexivity.
+    + destruct (b <? a)%float eqn:Hba; [reflexivity|].
+      apply self_div_eq; assumption.
+Qed.
+
+(* float addition is commutative for ALL floats *)
+Lemma add_comm (x y : PrimFloat.float) : (x + y = y + x)%float.
+Proof.
+  apply Prim2SF_inj. rewrite !add_spec. unfold SF64add, SFadd.
+  destruct (Prim2SF x) as [sx|sx| |sx mx ex]; destruct (Prim2SF y) as [sy|sy| |sy my ey];
+    try reflexivity.
+  - destruct sx, sy; reflexivity.
+  - destruct sx, sy; reflexivity.
+  - cbv zeta. rewrite (Z.min_comm ey ex). f_equal. apply Z.add_comm.
+Qed.
+
+(* ------------------------------------------------------------------ *)
+(* B2: centring-free form of amp_consistency and the mirror symmetry     *)
+
+(* flanks in temporal order: for a peak-centred table rise_0, decay_0, rise_1, ...;
+   for a trough-centred table decay_0, rise_0, decay_1, ... *)
+Definition flankseq (peak : bool) (rises decays : list PrimFloat.float) : nat -> PrimFloat.float :=
+  fun i => if Nat.even i then (if peak then fnth rises (i / 2) else fnth decays (i / 2))
+           else (if peak then fnth decays (i / 2) else fnth rises (i / 2)).
+
+Definition amp_cons_generic (d : direction) (F : nat -> PrimFloat.float) (c : nat) : PrimFloat.float :=
+  let cur := ratio_minmax (F (2 * c)) (F (2 * c + 1)) in
+  let lst := ratio_minmax (F (2 * c)) (F (2 * c - 1)) in
+  let nxt := ratio_minmax (F (2 * c + 2)) (F (2 * c + 1)) in
+  if all_nan [cur; nxt; lst] then fnan
+  else match d with
+       | Next => nanmin [cur; nxt]
+       | Last => nanmin [cur; lst]
+       | Both => nanmin [cur; nxt; lst]
+       end.
+
+Lemma flankseq_even peak rises decays k :
+  flankseq peak rises decays (2 * k) = if peak then fnth rises k else fnth decays k.
+Proof.
+  unfold flankseq.
+  assert (E : Nat.even (2 * k) = true) by (rewrite Nat.even_mul; reflexivity).
+  rewrite E. rewrite (Nat.mul_comm 2 k), Nat.div_mul by lia. reflexivity.
+Qed.
+
+Lemma flankseq_odd peak rises decays k :
+  flankseq peak rises decays (2 * k + 1) = if peak then fnth decays k else fnth rises k.
+Proof.
+  unfold flankseq.
+  assert (E : Nat.even (2 * k + 1) = false).
+  { rewrite Nat.even_add, Nat.even_mul. reflexivity. }
+  rewrite E.
+  assert (D : (2 * k + 1) / 2 = k).
+  { symmetry. apply (Nat.div_unique (2 * k + 1) 2 k 1); lia. }
+  rewrite D. reflexivity.
+Qed.
+
+Lemma amp_cons_at_generic peak d rises decays c : 1 <= c ->
+  amp_cons_at peak d rises decays c = amp_cons_generic d (flankseq peak rises decays) c.
+Proof.
+  intros Hc. unfold amp_cons_at, amp_cons_generic.
+  replace (2 * c + 2) with (2 * (c + 1)) by lia.
+  replace (2 * c - 1) with (2 * (c - 1) + 1) by lia.
+  rewrite !flankseq_even, !flankseq_odd.
+  destruct peak.
+  - reflexivity.
+  - rewrite (ratio_minmax_sym (fnth decays c) (fnth rises c)).
+    rewrite (ratio_minmax_sym (fnth decays c) (fnth rises (c - 1))).
+    rewrite (ratio_minmax_sym (fnth decays (c + 1)) (fnth rises c)).
+    reflexivity.
+Qed.
+
+Lemma flankseq_swap peak rises decays i :
+  flankseq (negb peak) decays rises i = flankseq peak rises decays i.
+Proof. unfold flankseq. destruct peak; reflexivity. Qed.
+
+(* a trough-centred table is the peak-centred table of the negated signal, whose rises
+   are the original decays and vice versa *)
+Lemma amp_cons_mirror d rises decays c : 1 <= c ->
+  amp_cons_at false d rises decays c = amp_cons_at true d decays rises c.
+Proof.
+  intros Hc. rewrite !amp_cons_at_generic by exact Hc.
+  unfold amp_cons_generic.
+  rewrite <- !(flankseq_swap false rises decays). reflexivity.
+Qed.
+
+(* the hypothesis 1 <= c is not needed for the mirror itself *)
+Lemma amp_cons_mirror_all d rises decays c :
+  amp_cons_at false d rises decays c = amp_cons_at true d decays rises c.
+Proof.
+  unfold amp_cons_at.
+  rewrite (ratio_minmax_sym (fnth decays c) (fnth rises c)).
+  rewrite (ratio_minmax_sym (fnth decays c) (fnth rises (c - 1))).
+  rewrite (ratio_minmax_sym (fnth decays (c + 1)) (fnth rises c)).
+  reflexivity.
+Qed.
+
+Lemma amp_consistency_mirror d rises decays : length rises = length decays ->
+  amp_consistency false d rises decays = amp_consistency true d decays rises.
+Proof.
+  intros Hlen. unfold amp_consistency. rewrite <- Hlen.
+  destruct (Nat.eq_dec (length rises) 0) as [E|E].
+  - rewrite E. reflexivity.
+  - rewrite !ends_nan_ok by exact E. cbn [rmap]. f_equal. f_equal.
+    apply map_ext. intros c. rewrite amp_cons_mirror_all. reflexivity.
+Qed.
+
+(* monotonicity: negating the signal exchanges increasing and decreasing steps *)
+Lemma steps_opp up l : steps up (map PrimFloat.opp l) = steps (negb up) l.
+Proof.
+  induction l as [|x t IH]; [reflexivity|].
+  destruct t as [|y t']; [reflexivity|].
+  change (map PrimFloat.opp (x :: y :: t')) with (- x :: map PrimFloat.opp (y :: t'))%float.
+  change (map PrimFloat.opp (y :: t')) with (- y :: map PrimFloat.opp t')%float in *.
+  rewrite !steps_cons2. rewrite IH. rewrite !opp_ltb. destruct up; reflexivity.
+Qed.
+
+Lemma zslice_map {A B} (f : A -> B) (l : list A) a b : zslice (map f l) a b = map f (zslice l a b).
+Proof.
+  unfold zslice, slice. rewrite skipn_map, firstn_map. reflexivity.
+Qed.
+
+Lemma monotonicity_mirror sig r :
+  monotonicity_row false sig r = monotonicity_row true (map PrimFloat.opp sig) r.
+Proof.
+  unfold monotonicity_row. rewrite !zslice_map, !steps_opp. cbn [negb].
+  rewrite (add_comm (frac_true (steps false (zslice sig (s_last r) (s_center r + 1))))). reflexivity.
+Qed.
+
+(* ------------------------------------------------------------------ *)
+(* B4: ranges of the consistency features                               *)
+
+Lemma ltb_leb_all (x y : PrimFloat.float) : (x <? y)%float = true -> (x <=? y)%float = true.
+Proof.
+  rewrite ltb_spec, leb_spec. unfold SFltb, SFleb.
+  destruct (SFcompare (Prim2SF x) (Prim2SF y)) as [[| |]|]; intros H; try reflexivity; discriminate H.
+Qed.
+
+Lemma nltb_leb (x y : PrimFloat.float) : finite x = true -> finite y = true ->
+  (x <? y)%float = false -> (y <=? x)%float = true.
+Proof.
+  intros Fx Fy H. rewrite (ltb_total x y Fx Fy) in H.
+  destruct (y <=? x)%float; [reflexivity|discriminate H].
+Qed.
+
+Lemma Prim2B_zero : Prim2B 0%float = B754_zero false.
+Proof. change 0%float with zero. rewrite zero_equiv. apply Prim2B_B2Prim. Qed.
+
+(* anything between 0 and 1 is a finite number *)
+Lemma unit_finite (x : PrimFloat.float) :
+  (0 <=? x)%float = true -> (x <=? 1)%float = true -> finite x = true.
+Proof.
+  unfold finite. rewrite !leb_equiv. rewrite Prim2B_zero.
+  change 1%float with one. rewrite one_equiv, Prim2B_B2Prim.
+  unfold Bleb, SFleb. destruct (Prim2B x) as [s|s| |s m e He]; try reflexivity.
+  - destruct s; cbn; intros H1 H2; discriminate.
+  - cbn. intros H; discriminate H.
+Qed.
+
+Lemma finite_isnan x : finite x = true -> isnan x = false.
+Proof. intros H. rewrite isnan_is_nan. apply finite_not_nan, H. Qed.
+
+Lemma leb_0_not_neg (x : PrimFloat.float) : (0 <=? x)%float = true -> (x <? 0)%float = false.
+Proof. apply leb_not_ltb. Qed.
+
+Lemma ltb_0_leb_0 (x : PrimFloat.float) : (0 <? x)%float = true -> (0 <=? x)%float = true.
+Proof. apply ltb_leb_all. Qed.
+
+(* the quotient min/max of two finite positive floats *)
+Lemma ratio_minmax_range a b : finite a = true -> finite b = true ->
+  (0 <? a)%float = true -> (0 <? b)%float = true ->
+  (0 <=? ratio_minmax a b)%float = true /\ (ratio_minmax a b <=? 1)%float = true.
+Proof.
+  intros Fa Fb Pa Pb. unfold ratio_minmax, fmin2, fmax2.
+  rewrite (finite_isnan a Fa), (finite_isnan b Fb).
+  destruct (a <? b)%float eqn:Hab.
+  - rewrite (ltb_asym a b Hab). apply div_range; try assumption.
+    apply ltb_leb_all, Hab.
+  - destruct (b <? a)%float eqn:Hba.
+    + apply div_range; try assumption. apply ltb_leb_all, Hba.
+    + apply div_range; try assumption. apply leb_refl, Fa.
+Qed.
+
+Lemma ratio_minmax_range_notnan a b : finite a = true -> finite b = true ->
+  (0 <? a)%float = true -> (0 <? b)%float = true ->
+  isnan (ratio_minmax a b) = false.
+Proof.
+  intros Fa Fb Pa Pb. destruct (ratio_minmax_range a b Fa Fb Pa Pb) as (H0 & H1).
+  apply finite_isnan, unit_finite; assumption.
+Qed.
+
+(* nanmin returns one of its non-NaN elements, or NaN when there is none *)
+Lemma nanmin_In l : isnan (nanmin l) = false -> In (nanmin l) l.
+Proof.
+  induction l as [|x t IH]; cbn [nanmin].
+  - intros H. discriminate H.
+  - destruct (isnan x) eqn:Nx.
+    + intros H. right. apply IH, H.
+    + destruct (isnan (nanmin t)) eqn:Nr.
+      * intros _. left. reflexivity.
+      * destruct (nanmin t <? x)%float.
+        -- intros _. right. apply IH. reflexivity.
+        -- intros _. left. reflexivity.
+Qed.
+
+Lemma nanmin_notnan l x : In x l -> isnan x = false -> isnan (nanmin l) = false.
+Proof.
+  induction l as [|y t IH]; cbn [nanmin In].
+  - intros [].
+  - intros [E|Hin] Nx.
+    + subst y. rewrite Nx.
+      destruct (isnan (nanmin t)) eqn:Nr; [exact Nx|].
+      destruct (nanmin t <? x)%float; assumption.
+    + specialize (IH Hin Nx). destruct (isnan y) eqn:Ny; [exact IH|].
+      rewrite IH. destruct (nanmin t <? y)%float; assumption.
+Qed.
+
+Lemma nanmin_allnan l : (forall x, In x l -> isnan x = true) -> isnan (nanmin l) = true.
+Proof.
+  intros H. destruct (isnan (nanmin l)) eqn:N; [reflexivity|].
+  rewrite (H _ (nanmin_In l N)) in N. discriminate N.
+Qed.
+
+Lemma nanmin_range l :
+  (forall x, In x l -> isnan x = true \/ ((0 <=? x)%float = true /\ (x <=? 1)%float = true)) ->
+  isnan (nanmin l) = true \/ ((0 <=? nanmin l)%float = true /\ (nanmin l <=? 1)%float = true).
+Proof.
+  intros H. destruct (isnan (nanmin l)) eqn:N; [left; reflexivity|].
+  destruct (H _ (nanmin_In l N)) as [E|E]; [rewrite E in N; discriminate N|right; exact E].
+Qed.
+
+(* nanmin is a lower bound of the finite elements *)
+Lemma nanmin_le l x : (forall y, In y l -> finite y = true) -> In x l ->
+  (nanmin l <=? x)%float = true.
+Proof.
+  induction l as [|y t IH]; cbn [nanmin In].
+  - intros _ [].
+  - intros Hf Hin.
+    assert (Fy : finite y = true) by (apply Hf; left; reflexivity).
+    assert (Ft : forall z, In z t -> finite z = true) by (intros z Hz; apply Hf; right; exact Hz).
+    rewrite (finite_isnan y Fy).
+    destruct (isnan (nanmin t)) eqn:Nr.
+    + destruct Hin as [E|Hin].
+      * subst x. apply leb_refl, Fy.
+      * rewrite (nanmin_notnan t x Hin (finite_isnan x (Ft x Hin))) in Nr. discriminate Nr.
+    + assert (Fr : finite (nanmin t) = true) by (apply Ft, nanmin_In, Nr).
+      destruct (nanmin t <? y)%float eqn:Hlt.
+      * destruct Hin as [E|Hin].
+        -- subst x. apply ltb_leb_all, Hlt.
+        -- apply IH; assumption.
+      * destruct Hin as [E|Hin].
+        -- subst x. apply leb_refl, Fy.
+        -- apply (leb_trans y (nanmin t) x); try assumption.
+           ++ apply Ft, Hin.
+           ++ apply nltb_leb; assumption.
+           ++ apply IH; assumption.
+Qed.
+
+Definition posfin (x : PrimFloat.float) : Prop := finite x = true /\ (0 <? x)%float = true.
+
+Lemma amp_cons_generic_range d F c :
+  posfin (F (2 * c - 1)) -> posfin (F (2 * c)) -> posfin (F (2 * c + 1)) -> posfin (F (2 * c + 2)) ->
+  let r := amp_cons_generic d F c in
+  isnan r = false /\ (0 <=? r)%float = true /\ (r <=? 1)%float = true.
+Proof.
+  intros (F0 & P0) (F1 & P1) (F2 & P2) (F3 & P3). cbv zeta. unfold amp_cons_generic.
+  set (cur := ratio_minmax (F (2 * c)) (F (2 * c + 1))).
+  set (lst := ratio_minmax (F (2 * c)) (F (2 * c - 1))).
+  set (nxt := ratio_minmax (F (2 * c + 2)) (F (2 * c + 1))).
+  assert (Ncur : isnan cur = false) by (apply ratio_minmax_range_notnan; assumption).
+  assert (Nlst : isnan lst = false) by (apply ratio_minmax_range_notnan; assumption).
+  assert (Nnxt : isnan nxt = false) by (apply ratio_minmax_range_notnan; assumption).
+  assert (Rcur := ratio_minmax_range _ _ F1 F2 P1 P2). fold cur in Rcur.
+  assert (Rlst := ratio_minmax_range _ _ F1 F0 P1 P0). fold lst in Rlst.
+  assert (Rnxt := ratio_minmax_range _ _ F3 F2 P3 P2). fold nxt in Rnxt.
+  assert (Hall : all_nan [cur; nxt; lst] = false).
+  { unfold all_nan. cbn [forallb]. rewrite Ncur. reflexivity. }
+  rewrite Hall.
+  assert (Hgen : forall l, In cur l -> (forall x, In x l -> x = cur \/ x = nxt \/ x = lst) ->
+            isnan (nanmin l) = false /\ (0 <=? nanmin l)%float = true /\ (nanmin l <=? 1)%float = true).
+  { intros l Hin Hl.
+    assert (N : isnan (nanmin l) = false) by (apply (nanmin_notnan l cur Hin Ncur)).
+    split; [exact N|].
+    destruct (Hl _ (nanmin_In l N)) as [E|[E|E]]; rewrite E; assumption. }
+  destruct d.
+  - apply Hgen; [left; reflexivity|]. cbn [In]. intros x [E|[E|[E|[]]]]; subst x; tauto.
+  - apply Hgen; [left; reflexivity|]. cbn [In]. intros x [E|[E|[]]]; subst x; tauto.
+  - apply Hgen; [left; reflexivity|]. cbn [In]. intros x [E|[E|[]]]; subst x; tauto.
+Qed.
+
+(* the four flank voltages involved at cycle c: flanks 2c-1 .. 2c+2 of the temporal sequence;
+   for a peak-centred table these are decays[c-1], rises[c], decays[c], rises[c+1] *)
+Lemma amp_cons_at_range peak d rises decays c : 1 <= c ->
+  (forall i, 2 * c - 1 <= i <= 2 * c + 2 -> posfin (flankseq peak rises decays i)) ->
+  let r := amp_cons_at peak d rises decays c in
+  isnan r = false /\ (0 <=? r)%float = true /\ (r <=? 1)%float = true.
+Proof.
+  intros Hc H. cbv zeta. rewrite amp_cons_at_generic by exact Hc.
+  apply amp_cons_generic_range; apply H; lia.
+Qed.
+
+Lemma amp_cons_at_range_peak d rises decays c : 1 <= c ->
+  posfin (fnth decays (c - 1)) -> posfin (fnth rises c) -> posfin (fnth decays c) ->
+  posfin (fnth rises (c + 1)) ->
+  let r := amp_cons_at true d rises decays c in
+  isnan r = false /\ (0 <=? r)%float = true /\ (r <=? 1)%float = true.
+Proof.
+  intros Hc H0 H1 H2 H3. cbv zeta. rewrite amp_cons_at_generic by exact Hc.
+  apply amp_cons_generic_range.
+  - replace (2 * c - 1) with (2 * (c - 1) + 1) by lia. rewrite flankseq_odd. exact H0.
+  - rewrite flankseq_even. exact H1.
+  - rewrite flankseq_odd. exact H2.
+  - replace (2 * c + 2) with (2 * (c + 1)) by lia. rewrite flankseq_even. exact H3.
+Qed.
+
+Lemma amp_cons_at_range_trough d rises decays c : 1 <= c ->
+  posfin (fnth rises (c - 1)) -> posfin (fnth decays c) -> posfin (fnth rises c) ->
+  posfin (fnth decays (c + 1)) ->
+  let r := amp_cons_at false d rises decays c in
+  isnan r = false /\ (0 <=? r)%float = true /\ (r <=? 1)%float = true.
+Proof.
+  intros Hc H0 H1 H2 H3. cbv zeta. rewrite amp_cons_mirror by exact Hc.
+  apply amp_cons_at_range_peak; assumption.
+Qed.
+
+(* on such cycles the clamp is the identity, so the table entry itself is in [0,1] *)
+Lemma amp_consistency_range peak d rises decays l c :
+  amp_consistency peak d rises decays = Ok l -> 1 <= c -> c + 1 < length rises ->
+  (forall i, 2 * c - 1 <= i <= 2 * c + 2 -> posfin (flankseq peak rises decays i)) ->
+  nth c l 0%float = amp_cons_at peak d rises decays c /\
+  isnan (nth c l 0%float) = false /\
+  (0 <=? nth c l 0%float)%float = true /\ (nth c l 0%float <=? 1)%float = true.
+Proof.
+  intros H H1 H2 Hp.
+  destruct (amp_cons_at_range peak d rises decays c H1 Hp) as (N & R0 & R1).
+  rewrite (amp_consistency_interior _ _ _ _ _ _ H H1 H2).
+  rewrite (clamp0_nonneg _ (leb_0_not_neg _ R0)). tauto.
+Qed.
+
+(* clamp0 always yields NaN or a value that is not negative *)
+Lemma clamp0_not_neg x : (clamp0 x <? 0)%float = false.
+Proof.
+  unfold clamp0. destruct (x <? 0)%float eqn:E; [reflexivity|exact E].
+Qed.
+
+Lemma clamp0_range x :
+  ((x <? 0)%float = false -> clamp0 x = x) /\ ((x <? 0)%float = true -> clamp0 x = 0%float).
+Proof. split; [apply clamp0_nonneg|apply clamp0_neg]. Qed.
+
+(* ------------------------------------------------------------------ *)
+(* Quotients of positive numbers of moderate size are in (0,1]          *)
+
+Lemma rnd64_1 : rnd64 1 = 1%R.
+Proof. apply rnd64_id. now apply format64_IZR. Qed.
+
+Lemma div_pos_unit (x y : PrimFloat.float) : finite x = true -> finite y = true ->
+  (1 <= FR x)%R -> (FR x <= FR y)%R -> (FR y <= IZR (2 ^ 53))%R ->
+  finite (x / y) = true /\ (0 <? x / y)%float = true /\ (x / y <=? 1)%float = true.
+Proof.
+  intros Fx Fy H1 Hxy Hy.
+  set (eps := (/ IZR (2 ^ 53))%R).
+  assert (P53 : (0 < IZR (2 ^ 53))%R) by (apply IZR_lt; reflexivity).
+  assert (Heps : (0 < eps)%R) by (apply Rinv_0_lt_compat, P53).
+  assert (Ypos : (0 < FR y)%R) by lra.
+  assert (Hiy : (eps <= / FR y)%R) by (apply Rinv_le_contravar; assumption).
+  assert (Hq : (eps <= FR x / FR y <= 1)%R).
+  { split.
+    - unfold Rdiv. apply Rle_trans with (1 * / FR y)%R; [lra|].
+      apply Rmult_le_compat_r; [|exact H1]. apply Rlt_le, Rinv_0_lt_compat, Ypos.
+    - apply Rmult_le_reg_r with (FR y); [exact Ypos|]. unfold Rdiv.
+      rewrite Rmult_assoc, Rinv_l by lra. lra. }
+  assert (Geps : rnd64 eps = eps).
+  { apply rnd64_id. replace eps with (F2R (Float radix2 1 (-53))).
+    - apply format64_FLT; [reflexivity|lia].
+    - unfold F2R, eps. simpl. lra. }
+  destruct (div_FR x y Fx Fy) as (Fq & Vq).
+  { lra. }
+  { rewrite Rabs_pos_eq; lra. }
+  split; [exact Fq|].
+  rewrite ltb_R, leb_R by (assumption || reflexivity).
+  rewrite FR_zero, FR_one, Vq. split.
+  - apply Rlt_bool_true. apply Rlt_le_trans with eps; [exact Heps|].
+    rewrite <- Geps. apply rnd64_le, Hq.
+  - apply Rle_bool_true. rewrite <- rnd64_1. apply rnd64_le, Hq.
+Qed.
+
+Lemma Z2F_ratio_pos a b : (0 < a <= b)%Z -> (b < 2 ^ 53)%Z ->
+  finite (FloatBase.Z2F a / FloatBase.Z2F b) = true /\
+  (0 <? FloatBase.Z2F a / FloatBase.Z2F b)%float = true /\
+  (FloatBase.Z2F a / FloatBase.Z2F b <=? 1)%float = true.
+Proof.
+  intros Ha Hb. change FloatBase.Z2F with FloatFacts.Z2F.
+  assert (Aa : (Z.abs a < 2 ^ 53)%Z) by (rewrite Z.abs_eq; lia).
+  assert (Ab : (Z.abs b < 2 ^ 53)%Z) by (rewrite Z.abs_eq; lia).
+  destruct (Z2F_exact a Aa) as (Fa & Va). destruct (Z2F_exact b Ab) as (Fb & Vb).
+  apply div_pos_unit; try assumption; rewrite ?Va, ?Vb; apply IZR_le; lia.
+Qed.
+
+Lemma zratio_range a b : (0 < a < 2 ^ 53)%Z -> (0 < b < 2 ^ 53)%Z ->
+  finite (zratio a b) = true /\ (0 <? zratio a b)%float = true /\ (zratio a b <=? 1)%float = true.
+Proof.
+  intros Ha Hb. unfold zratio. apply Z2F_ratio_pos; lia.
+Qed.
+
+Lemma fmin2_cases a b : isnan a = false -> isnan b = false -> fmin2 a b = a \/ fmin2 a b = b.
+Proof.
+  intros Na Nb. unfold fmin2. rewrite Na, Nb. destruct (b <? a)%float; [right|left]; reflexivity.
+Qed.
+
+(* B4: period consistency of an interior cycle with positive periods below 2^53 *)
+Lemma period_cons_at_range d periods c :
+  (forall i, c - 1 <= i <= c + 1 -> (0 < nth i periods 0%Z < 2 ^ 53)%Z) ->
+  let r := period_cons_at d periods c in
+  isnan r = false /\ (0 <? r)%float = true /\ (r <=? 1)%float = true.
+Proof.
+  intros H. cbv zeta. unfold period_cons_at.
+  assert (H0 := H (c - 1)). assert (H1 := H c). assert (H2 := H (c + 1)).
+  destruct (zratio_range (nth c periods 0%Z) (nth (c - 1) periods 0%Z)) as (Fl & Pl & Ul);
+    [apply H1; lia|apply H0; lia|].
+  destruct (zratio_range (nth (c + 1) periods 0%Z) (nth c periods 0%Z)) as (Fn & Pn & Un);
+    [apply H2; lia|apply H1; lia|].
+  destruct d.
+  - destruct (fmin2_cases _ _ (finite_isnan _ Fn) (finite_isnan _ Fl)) as [E|E]; rewrite E.
+    + split; [apply finite_isnan, Fn|tauto].
+    + split; [apply finite_isnan, Fl|tauto].
+  - split; [apply finite_isnan, Fn|tauto].
+  - split; [apply finite_isnan, Fl|tauto].
+Qed.
+
+Lemma period_consistency_range d periods l c :
+  period_consistency d periods = Ok l -> 1 <= c -> c + 1 < length periods ->
+  (forall i, i < length periods -> (0 < nth i periods 0%Z < 2 ^ 53)%Z) ->
+  isnan (nth c l 0%float) = false /\
+  (0 <? nth c l 0%float)%float = true /\ (nth c l 0%float <=? 1)%float = true.
+Proof.
+  intros H H1 H2 Hp. rewrite (period_consistency_interior _ _ _ _ H H1 H2).
+  apply period_cons_at_range. intros i Hi. apply Hp. lia.
+Qed.
+
+(* ------------------------------------------------------------------ *)
+(* B5: fraction of true entries, monotonicity                           *)
+
+Lemma count_true_le l : count_true l <= length l.
+Proof.
+  induction l as [|b t IH]; [apply Nat.le_refl|].
+  destruct b; cbn [count_true length]; lia.
+Qed.
+
+Lemma frac_true_range l : l <> [] -> (Z.of_nat (length l) < 2 ^ 52)%Z ->
+  (0 <=? frac_true l)%float = true /\ (frac_true l <=? 1)%float = true.
+Proof.
+  intros Hne Hlen. unfold frac_true. change FloatBase.Z2F with FloatFacts.Z2F.
+  assert (Hpos : 0 < length l) by (destruct l; [contradiction|cbn [length]; lia]).
+  assert (Hc := count_true_le l).
+  apply ratio_range; lia.
+Qed.
+
+Lemma add_FR_small (x y : PrimFloat.float) : finite x = true -> finite y = true ->
+  (Rabs (FR x + FR y) <= 2)%R ->
+  finite (x + y) = true /\ FR (x + y) = rnd64 (FR x + FR y).
+Proof.
+  intros Fx Fy Hs. unfold finite, FR in *. rewrite add_equiv.
+  generalize (Bplus_correct _ _ Hprec Hmax mode_NE (Prim2B x) (Prim2B y) Fx Fy).
+  fold (rnd64 (B2R (Prim2B x) + B2R (Prim2B y))).
+  assert (E2 : rnd64 2 = 2%R) by (apply rnd64_id; now apply format64_IZR).
+  assert (Em2 : rnd64 (-2) = (-2)%R).
+  { apply rnd64_id. change (-2)%R with (IZR (-2)). now apply format64_IZR. }
+  assert (Hr : (Rabs (rnd64 (B2R (Prim2B x) + B2R (Prim2B y))) <= 2)%R).
+  { apply Rabs_le. apply Rabs_le_inv in Hs. split.
+    - apply Rle_trans with (rnd64 (-2)); [rewrite Em2; lra|apply rnd64_le; lra].
+    - apply Rle_trans with (rnd64 2); [apply rnd64_le; lra|rewrite E2; lra]. }
+  rewrite Rlt_bool_true.
+  - intros (Hv & Hfin & _). split; [exact Hfin|exact Hv].
+  - apply Rle_lt_trans with (bpow radix2 1); [exact Hr|].
+    apply (bpow_lt radix2 1 1024). reflexivity.
+Qed.
+
+(* the mean of two numbers of [0,1] is in [0,1] *)
+Lemma half_sum_unit (x y : PrimFloat.float) :
+  (0 <=? x)%float = true -> (x <=? 1)%float = true ->
+  (0 <=? y)%float = true -> (y <=? 1)%float = true ->
+  (0 <=? (x + y) / 2)%float = true /\ ((x + y) / 2 <=? 1)%float = true.
+Proof.
+  intros X0 X1 Y0 Y1.
+  assert (Fx := unit_finite x X0 X1). assert (Fy := unit_finite y Y0 Y1).
+  rewrite leb_R in X0, X1, Y0, Y1 by (assumption || reflexivity).
+  revert X0 X1 Y0 Y1.
+  case Rle_bool_spec; try easy. intros X0 _.
+  case Rle_bool_spec; try easy. intros X1 _.
+  case Rle_bool_spec; try easy. intros Y0 _.
+  case Rle_bool_spec; try easy. intros Y1 _.
+  rewrite FR_zero in X0, Y0. rewrite FR_one in X1, Y1.
+  destruct (add_FR_small x y Fx Fy) as (Fs & Vs).
+  { rewrite Rabs_pos_eq; lra. }
+  assert (E2 : rnd64 2 = 2%R) by (apply rnd64_id; now apply format64_IZR).
+  assert (Hs : (0 <= FR (x + y) <= 2)%R).
+  { rewrite Vs. split.
+    - rewrite <- rnd64_0. apply rnd64_le. lra.
+    - rewrite <- E2. apply rnd64_le. lra. }
+  destruct (div_FR_between 0%float 1%float (x + y)%float 2%float) as (Fq & _ & Hq);
+    try (assumption || reflexivity).
+  { rewrite FR_two. lra. }
+  { rewrite FR_zero, FR_one, FR_two. lra. }
+  rewrite !leb_R by (assumption || reflexivity).
+  split; apply Rle_bool_true; apply Hq.
+Qed.
+
+Lemma steps_nonempty up l : 2 <= length l -> steps up l <> [].
+Proof.
+  intros H E. assert (L := steps_length up l). rewrite E in L. cbn [length] in L. lia.
+Qed.
+
+Lemma monotonicity_row_range peak sig r :
+  (0 <= s_last r)%Z -> (s_last r < s_center r)%Z -> (s_center r < s_next r)%Z ->
+  (s_next r < Z.of_nat (length sig))%Z -> (Z.of_nat (length sig) < 2 ^ 52)%Z ->
+  (0 <=? monotonicity_row peak sig r)%float = true /\
+  (monotonicity_row peak sig r <=? 1)%float = true.
+Proof.
+  intros H0 H1 H2 H3 H4. unfold monotonicity_row.
+  set (a := zslice sig (s_last r) (s_center r + 1)).
+  set (b := zslice sig (s_center r) (s_next r + 1)).
+  assert (La : length a = Z.to_nat (s_center r - s_last r + 1)) by (apply zslice_length; lia).
+  assert (Lb : length b = Z.to_nat (s_next r - s_center r + 1)) by (apply zslice_length; lia).
+  assert (Hfr : forall up l, 2 <= length l -> (Z.of_nat (length l) < 2 ^ 52)%Z ->
+            (0 <=? frac_true (steps up l))%float = true /\ (frac_true (steps up l) <=? 1)%float = true).
+  { intros up l Hl Hb. apply frac_true_range.
+    - apply steps_nonempty, Hl.
+    - rewrite steps_length. lia. }
+  destruct peak.
+  - destruct (Hfr false b) as (D0 & D1); [lia|lia|].
+    destruct (Hfr true a) as (R0 & R1); [lia|lia|].
+    apply half_sum_unit; assumption.
+  - destruct (Hfr false a) as (D0 & D1); [lia|lia|].
+    destruct (Hfr true b) as (R0 & R1); [lia|lia|].
+    apply half_sum_unit; assumption.
+Qed.
+
+(* B6: burst fraction of a row lying inside the signal *)
+Lemma burst_fraction_row_range mask r :
+  (0 <= s_last r)%Z -> (s_last r <= s_next r)%Z ->
+  (s_next r < Z.of_nat (length mask))%Z -> (Z.of_nat (length mask) < 2 ^ 52)%Z ->
+  (0 <=? burst_fraction_row mask r)%float = true /\ (burst_fraction_row mask r <=? 1)%float = true.
+Proof.
+  intros H0 H1 H2 H3. rewrite burst_fraction_row_def.
+  assert (L : length (zslice mask (s_last r) (s_next r + 1)) = Z.to_nat (s_next r - s_last r + 1))
+    by (apply zslice_length; lia).
+  apply frac_true_range.
+  - intros E. rewrite E in L. cbn [length] in L. lia.
+  - rewrite L. lia.
+Qed.
+
+(* ------------------------------------------------------------------ *)
+(* B3: range of the rank fraction                                       *)
+
+Lemma ltb_not_eqb (x y : PrimFloat.float) : (x <? y)%float = true -> (x =? y)%float = false.
+Proof.
+  rewrite ltb_spec, eqb_spec. unfold SFltb, SFeqb.
+  destruct (SFcompare (Prim2SF x) (Prim2SF y)) as [[| |]|]; intros H; try reflexivity; discriminate H.
+Qed.
+
+Lemma eqb_refl_notnan (x : PrimFloat.float) : isnan x = false -> (x =? x)%float = true.
+Proof. unfold isnan. destruct (x =? x)%float; [reflexivity|discriminate]. Qed.
+
+Lemma filter_disjoint_length {A} (p q : A -> bool) l :
+  (forall w, p w = true -> q w = false) ->
+  length (filter p l) + length (filter q l) <= length l.
+Proof.
+  intros H. induction l as [|w t IH]; [apply Nat.le_refl|].
+  cbn [filter]. destruct (p w) eqn:Pw.
+  - rewrite (H w Pw). cbn [length]. lia.
+  - destruct (q w); cbn [length]; lia.
+Qed.
+
+Lemma filter_In_length {A} (p : A -> bool) l x : In x l -> p x = true -> 1 <= length (filter p l).
+Proof.
+  intros Hin Hp. assert (H : In x (filter p l)) by (apply filter_In; split; assumption).
+  destruct (filter p l); [destruct H|cbn [length]; lia].
+Qed.
+
+Lemma rank_counts va i : i < length va -> isnan (fnth va i) = false ->
+  (1 <= n_eq va (fnth va i))%Z /\ (0 <= n_less va (fnth va i))%Z /\
+  (n_less va (fnth va i) + n_eq va (fnth va i) <= Z.of_nat (length va))%Z.
+Proof.
+  intros Hi Hn. unfold n_eq, n_less.
+  set (v := fnth va i).
+  assert (Hin : In v va) by (apply nth_In, Hi).
+  assert (H1 := filter_In_length (fun w => (w =? v)%float) va v Hin (eqb_refl_notnan v Hn)).
+  assert (H2 := filter_disjoint_length (fun w => (w <? v)%float) (fun w => (w =? v)%float) va
+                  (fun w => ltb_not_eqb w v)).
+  lia.
+Qed.
+
+(* an integer below 2^53 halved is exact *)
+Lemma Z2F_half k : (0 <= k < 2 ^ 53)%Z ->
+  finite (FloatFacts.Z2F k / 2)%float = true /\ FR (FloatFacts.Z2F k / 2)%float = (IZR k / 2)%R.
+Proof.
+  intros Hk.
+  assert (Ak : (Z.abs k < 2 ^ 53)%Z) by (rewrite Z.abs_eq; lia).
+  destruct (Z2F_exact k Ak) as (Fk & Vk).
+  assert (K0 : (0 <= IZR k)%R) by (apply IZR_le; lia).
+  destruct (div_FR_between 0%float (FloatFacts.Z2F k) (FloatFacts.Z2F k) 2%float) as (Fq & Vq & _);
+    try (assumption || reflexivity).
+  { rewrite FR_two. lra. }
+  { rewrite FR_zero, FR_two, Vk. lra. }
+  split; [exact Fq|]. rewrite Vq, Vk, FR_two. apply rnd64_id.
+  replace (IZR k / 2)%R with (F2R (Float radix2 k (-1))).
+  - apply format64_FLT; [exact Ak|lia].
+  - unfold F2R. simpl. lra.
+Qed.
+
+Lemma amp_fraction_range va i : i < length va -> isnan (fnth va i) = false ->
+  (Z.of_nat (length va) < 2 ^ 52)%Z ->
+  (0 <? fnth (amp_fraction va) i)%float = true /\ (fnth (amp_fraction va) i <=? 1)%float = true.
+Proof.
+  intros Hi Hn Hlen. rewrite (amp_fraction_spec va i Hi Hn).
+  destruct (rank_counts va i Hi Hn) as (E1 & L0 & S).
+  set (k := (2 * n_less va (fnth va i) + n_eq va (fnth va i) + 1)%Z).
+  set (n := Z.of_nat (length va)) in *.
+  change FloatBase.Z2F with FloatFacts.Z2F.
+  assert (Hk : (2 <= k <= 2 * n)%Z) by (unfold k; lia).
+  destruct (Z2F_half k) as (Fx & Vx); [lia|].
+  assert (An : (Z.abs n < 2 ^ 53)%Z) by (rewrite Z.abs_eq; lia).
+  destruct (Z2F_exact n An) as (Fn & Vn).
+  assert (K2 : (2 <= IZR k)%R) by (apply IZR_le; lia).
+  assert (K2n : (IZR k <= 2 * IZR n)%R) by (rewrite <- mult_IZR; apply IZR_le; lia).
+  assert (N53 : (IZR n <= IZR (2 ^ 53))%R) by (apply IZR_le; lia).
+  destruct (div_pos_unit (FloatFacts.Z2F k / 2)%float (FloatFacts.Z2F n) Fx Fn) as (_ & P & U);
+    rewrite ?Vx, ?Vn; try lra.
+  split; assumption.
+Qed.
+
+(* the requested form: all amplitudes finite *)
+Lemma amp_fraction_range_finite va i : i < length va ->
+  (forall x, In x va -> finite x = true) -> (Z.of_nat (length va) < 2 ^ 52)%Z ->
+  (0 <? fnth (amp_fraction va) i)%float = true /\ (fnth (amp_fraction va) i <=? 1)%float = true.
+Proof.
+  intros Hi Hf Hlen. apply amp_fraction_range; try assumption.
+  apply finite_isnan, Hf, nth_In, Hi.
+Qed.
+
+(* ------------------------------------------------------------------ *)
+(* B7: non-vacuity examples (vm_compute on small tables)                *)
+
+Definition ex_rises : list PrimFloat.float := [8; 2; 4; 2]%float.
+Definition ex_decays : list PrimFloat.float := [2; 2; 4; 1]%float.
+
+Example ex_amp_cons_peak :
+  amp_consistency true Both ex_rises ex_decays = Ok [fnan; 0.5; 0.5; fnan]%float.
+Proof. vm_compute. reflexivity. Qed.
+
+Example ex_amp_cons_trough :
+  amp_consistency false Both ex_rises ex_decays = Ok [fnan; 0.25; 0.25; fnan]%float.
+Proof. vm_compute. reflexivity. Qed.
+
+(* the mirror: trough-centred = peak-centred with rises and decays exchanged *)
+Example ex_amp_cons_mirror :
+  amp_consistency true Both ex_decays ex_rises = Ok [fnan; 0.25; 0.25; fnan]%float.
+Proof. vm_compute. reflexivity. Qed.
+
+Example ex_amp_cons_trough_last :
+  amp_consistency false Last ex_rises ex_decays = Ok [fnan; 0.25; 0.5; fnan]%float.
+Proof. vm_compute. reflexivity. Qed.
+
+Example ex_amp_cons_trough_next :
+  amp_consistency false Next ex_rises ex_decays = Ok [fnan; 0.5; 0.25; fnan]%float.
+Proof. vm_compute. reflexivity. Qed.
+
+(* the hypotheses of amp_cons_at_range are satisfiable: every flank is finite and positive *)
+Example ex_amp_cons_range_hyp : forall i, i < 8 -> posfin (flankseq true ex_rises ex_decays i).
+Proof.
+  intros i Hi. do 8 (destruct i as [|i]; [split; reflexivity|]). lia.
+Qed.
+
+(* a negative flank voltage gives a negative ratio, which is clamped to 0 *)
+Example ex_amp_cons_clamp :
+  amp_cons_at true Both [1; -1; 1]%float [1; 2; 1]%float 1 = (-1)%float /\
+  amp_consistency true Both [1; -1; 1]%float [1; 2; 1]%float = Ok [fnan; 0; fnan]%float.
+Proof. split; vm_compute; reflexivity. Qed.
+
+Example ex_amp_cons_empty : amp_consistency true Both [] [] = Err EIndex.
+Proof. reflexivity. Qed.
+
+(* ranks with a tie: the two 3s share ranks 3 and 4 *)
+Example ex_amp_fraction_tie :
+  amp_fraction [3; 1; 3; 2]%float = [0.875; 0.25; 0.875; 0.5]%float.
+Proof. vm_compute. reflexivity. Qed.
+
+Example ex_amp_fraction_nan :
+  amp_fraction [3; fnan; 1; 1]%float = [0.75; fnan; 0.375; 0.375]%float.
+Proof. vm_compute. reflexivity. Qed.
+
+Example ex_period_cons_both :
+  period_consistency Both [10; 20; 40; 40; 10]%Z = Ok [fnan; 0.5; 0.5; 0.25; fnan]%float.
+Proof. vm_compute. reflexivity. Qed.
+
+Example ex_period_cons_next :
+  period_consistency Next [10; 20; 40; 40; 10]%Z = Ok [fnan; 0.5; 1; 0.25; fnan]%float.
+Proof. vm_compute. reflexivity. Qed.
+
+Example ex_period_cons_empty : period_consistency Both [] = Err EIndex.
+Proof. reflexivity. Qed.
+
+Definition ex_sig : list PrimFloat.float := [0; 1; 2; 1; 0.5; 0.75; 0]%float.
+Definition ex_row : srow :=
+  {| s_center := 2; s_last := 0; s_next := 6; s_zx_rise := 1; s_zx_decay := 3; s_last_zx := 0 |}.
+
+(* rise 0,1,2 fully monotone; decay 2,1,.5,.75,0 has 3 of 4 decreasing steps *)
+Example ex_monotonicity : monotonicity_row true ex_sig ex_row = 0.875%float.
+Proof. vm_compute. reflexivity. Qed.
+
+Example ex_monotonicity_mirror :
+  monotonicity_row false (map PrimFloat.opp ex_sig) ex_row = 0.875%float.
+Proof. vm_compute. reflexivity. Qed.
+
+Example ex_burst_fraction :
+  burst_fraction_row [true; true; false; true; false; false; false; true]
+    {| s_center := 2; s_last := 0; s_next := 3; s_zx_rise := 1; s_zx_decay := 3; s_last_zx := 0 |}
+  = 0.75%float.
+Proof. vm_compute. reflexivity. Qed.
